@@ -11,6 +11,8 @@ Modes
   swapeq    `a == b` / `a != b` with two non-constant sides become `b == a` / `b != a`
   deelse    `if c: ...return/continue/raise  else: B` becomes `if c: ...;  B` (else removed after a terminating body)
   addelse   `if c: ...return/continue/raise;  REST` becomes `if c: ... else: REST` (only the last such `if` of each block)
+  noise     `assert True, 'probe'` inserted at the start of the function and of every loop body
+  extract   `return f(...)` becomes `_extracted = f(...); return _extracted`
 """
 import ast
 import concurrent.futures
@@ -116,7 +118,38 @@ def t_addelse(fn):
     return n
 
 
-MODES = {"identity": t_identity, "invert": t_invert, "swapeq": t_swapeq, "deelse": t_deelse, "addelse": t_addelse}
+def t_noise(fn):
+    """A statement without effect at the start of the function and at the start of every loop body."""
+    n = 0
+    stmt = ast.parse("assert True, 'probe'").body[0]
+    at = 1 if (fn.body and isinstance(fn.body[0], ast.Expr) and isinstance(fn.body[0].value, ast.Constant) and isinstance(fn.body[0].value.value, str)) else 0
+    fn.body.insert(at, copy.deepcopy(stmt))
+    n += 1
+    for node in ast.walk(fn):
+        if isinstance(node, (ast.For, ast.While)) and node is not fn:
+            node.body.insert(0, copy.deepcopy(stmt))
+            n += 1
+    return n
+
+
+def t_extract(fn):
+    """`return <call>(...)` becomes `_extracted = <call>(...); return _extracted` (extract local variable)."""
+    n = 0
+    for owner, attr, block in list(_blocks(fn)):
+        i = 0
+        while i < len(block):
+            st = block[i]
+            if isinstance(st, ast.Return) and isinstance(st.value, ast.Call):
+                tmp = ast.Assign(targets=[ast.Name(id="_extracted", ctx=ast.Store())], value=st.value, lineno=st.lineno, col_offset=st.col_offset)
+                st.value = ast.Name(id="_extracted", ctx=ast.Load())
+                block.insert(i, tmp)
+                i += 1
+                n += 1
+            i += 1
+    return n
+
+
+MODES = {"noise": t_noise, "extract": t_extract, "identity": t_identity, "invert": t_invert, "swapeq": t_swapeq, "deelse": t_deelse, "addelse": t_addelse}
 
 
 def rewritten(src: str, qualname: str, mode: str):
